@@ -263,7 +263,18 @@ func (f *Frame) loadFacts(t types.Type, v []*Term) {
 		return
 	}
 	tb := f.tb()
-	for _, fact := range f.u.validFacts(t, v, tb.BVU(32, 0xffffffff)) {
+	// references read straight from the initial memory belong to the input world
+	bound := tb.BVU(32, 0xffffffff)
+	pure := true
+	for _, s := range v {
+		if s.Sort.K == KBV && s.Sort.W == 32 && !(len(s.Op) > 6 && s.Op[:6] == "uf:m0_") {
+			pure = false
+		}
+	}
+	if pure {
+		bound = tb.BVU(32, freshBase)
+	}
+	for _, fact := range f.u.validFacts(t, v, bound) {
 		if !fact.hasBV {
 			f.u.addFact(fact)
 		}
